@@ -248,6 +248,12 @@ class URL:
                 if set(host_header) & set("/?#@\\"):
                     host_header = None
 
+        if path and not path.startswith("/") and not (
+            host_header is None and server is None
+        ):
+            # e.g. the request target "*": keep it apart from the authority
+            path = "/" + path
+
         if host_header is not None:
             url = f"{scheme}://{host_header}{path}"
         elif server is None:
